@@ -25,7 +25,6 @@ func ContainsFold(s, substr string) (ok bool) {
 	}
 
 	first, _ := utf8.DecodeRuneInString(substr)
-	firstFolded := unicode.SimpleFold(first)
 
 	for i := 0; i != -1 && len(s) >= len(substr); {
 		if strings.EqualFold(s[:substrLen], substr) {
@@ -33,7 +32,15 @@ func ContainsFold(s, substr string) (ok bool) {
 		}
 
 		i = strings.IndexFunc(s[1:], func(r rune) (eq bool) {
-			return r == first || r == firstFolded
+			// Check the whole case-folding orbit of first, since it may have
+			// more than two members, e.g. 'k', 'K', and the Kelvin sign.
+			for folded := unicode.SimpleFold(first); folded != first; folded = unicode.SimpleFold(folded) {
+				if r == folded {
+					return true
+				}
+			}
+
+			return r == first
 		})
 
 		s = s[1+i:]
